@@ -244,6 +244,7 @@ pub struct Report {
     pub notes: BTreeMap<String, Json>,
     pub violations: Vec<Violation>,
     pub max_violations: usize,
+    pub max_per_group: usize,
     pub suppressed_violations: u64,
     pub inconclusive: Option<String>,
     pub exhaustive: bool,
@@ -291,7 +292,8 @@ impl Report {
             counters: BTreeMap::new(),
             notes: BTreeMap::new(),
             violations: Vec::new(),
-            max_violations: 25,
+            max_violations: 60,
+            max_per_group: 4,
             suppressed_violations: 0,
             inconclusive: None,
             exhaustive: false,
@@ -345,9 +347,16 @@ impl Report {
     }
 
     pub fn violation(&mut self, signature: String, summary: String, witness: Json) {
-        // Keep one violation per signature; count the rest.
+        // Keep one violation per signature, at most a few per group (first
+        // two `|`-separated fields of the signature, e.g. property + family /
+        // operator) so that one noisy family cannot hide the others; count
+        // the rest.
+        let group = |s: &str| s.split('|').take(2).collect::<Vec<_>>().join("|");
+        let g = group(&signature);
+        let in_group = self.violations.iter().filter(|v| group(&v.signature) == g).count();
         if self.violations.iter().any(|v| v.signature == signature)
             || self.violations.len() >= self.max_violations
+            || in_group >= self.max_per_group
         {
             self.suppressed_violations += 1;
             return;
